@@ -329,8 +329,17 @@ theorem graphBody_error_of_node (o : Opts) (rec : Node → St → R) (g : Graph)
     · obtain ⟨e, he⟩ := nodesLoop_error_of_mem rec n hn g.nodes hmem r.2
       rw [he]; exact ⟨e, rfl⟩
 
+theorem graphProg_error_of_body (o : Opts) (d : Nat) (m : ModelP) (fn : String) (indent : Nat) (st : St)
+    (h : ∀ rec st, (∀ n st, rec n st = translateNode o m.opsets d indent n st) →
+      ∃ e, graphBody o rec m.graph st = .error e) :
+    ∃ e, graphProg o d m fn indent st = .error e := by
+  unfold graphProg
+  obtain ⟨e, he⟩ := h (translateNode o m.opsets d indent) { st with remaps := [] :: st.remaps } (fun _ _ => rfl)
+  simp only [he]
+  exact ⟨e, rfl⟩
+
 theorem translateGraph_error_of_body (o : Opts) (d : Nat) (m : ModelP)
-    (h : ∀ rec st, (∀ n st, rec n st = translateNode o m.opsets d (if o.skipInit then 2 else 1) n st) →
+    (h : ∀ indent rec st, (∀ n st, rec n st = translateNode o m.opsets d indent n st) →
       ∃ e, graphBody o rec m.graph st = .error e) :
     ∃ e, exportModel o d m = .error e := by
   unfold exportModel translateGraph
@@ -338,7 +347,8 @@ theorem translateGraph_error_of_body (o : Opts) (d : Nat) (m : ModelP)
   · exact ⟨_, rfl⟩
   · split
     · exact ⟨_, rfl⟩
-    · obtain ⟨e, he⟩ := h (translateNode o m.opsets d (if o.skipInit then 2 else 1)) {} (fun _ _ => rfl)
+    · obtain ⟨e, he⟩ := graphProg_error_of_body o d m m.funName
+        (if o.skipInit then 2 else 1) {} (h _)
       simp only [he]
       exact ⟨e, rfl⟩
 
